@@ -144,7 +144,7 @@ def run_lane(prop, scen, lane, tier, seed, wall, outdir, first_base):
 
 def replay(lane, path):
     r = subprocess.run([lane_binary(lane), "replay", "--file", path], stdout=subprocess.PIPE, stderr=subprocess.STDOUT, text=True)
-    return r.returncode, r.stdout.strip()
+    return r.returncode, " ".join(l for l in r.stdout.splitlines() if l.startswith("REPLAY"))
 
 
 def gate_and_minimise(prop, lane, sig, path, tier):
@@ -161,7 +161,7 @@ def gate_and_minimise(prop, lane, sig, path, tier):
     tmp = final + ".tmp"
     r = subprocess.run([lane_binary(lane), "shrink", "--file", path, "--out", tmp, "--budget", "2000", "--wall",
                         "60" if tier == "quick" else "240"], stdout=subprocess.PIPE, stderr=subprocess.STDOUT, text=True)
-    info = r.stdout.strip()
+    info = " ".join(l for l in r.stdout.splitlines() if l.startswith("SHRINK"))
     if r.returncode != 0 or not os.path.exists(tmp):
         log("BROKEN: shrinking %s failed: %s" % (path, info))
         return None, info
